@@ -85,10 +85,12 @@ func Build[G any](options ...Option) (parser *Parser[G], err error) {
 			if len(mapper.symbols) == 0 {
 				mappers[lexer.EOF] = append(mappers[lexer.EOF], mapper.mapper)
 			} else {
+				selected := map[lexer.TokenType]bool{}
 				for _, symbol := range mapper.symbols {
 					if rn, ok := symbols[symbol]; !ok {
 						return nil, fmt.Errorf("mapper %#v uses unknown token %q", mapper, symbol)
-					} else { // nolint: golint
+					} else if !selected[rn] { // A symbol listed twice selects the token type once.
+						selected[rn] = true
 						mappers[rn] = append(mappers[rn], mapper.mapper)
 					}
 				}
